@@ -23,17 +23,19 @@ CLAIMED = {
              "and judged in TLC: canonical form, append-moves-to-end, delete-exactly, rejected-unchanged, text reparses to an equal "
              "list, length/item/iteration agree. Right level: a small sequential object with fully observable state.",
         design_ref="DESIGN.md section 5 C17",
-        note="Trusted: TLC, adapter projection (lower-cases and whitespace-normalises query texts). 'all' mixed with feature "
-             "queries and out-of-range indexes are not generated (property silent). Two known findings (item assignment)."),
+        note="Trusted: TLC, adapter projection (lower-cases and whitespace-normalises query texts). Appending / assigning 'all' next to "
+             "feature queries and out-of-range indexes are not generated (property silent). Owners: none, @media, @import, each also with "
+             "its list re-assigned first; the owner's text is read back from the owner's own serialisation. Known findings (item assignment)."),
     "C14": dict(
         technique="TLA+ contract F(contents) (ProfilesContract) + algorithm-layer model of the macro cache (Profiles.tla) checked "
                   "by TLC (HistoryFree, with a deviation switch reproducing the stale-cache defects); TLC-generated tour and walks "
                   "replayed on a fresh Profiles registry; TLC trace monitor compares the probe verdict vector with F(observed contents)",
         text="Bounded exhaustive over registry histories: all explored (contents, macro-cache) states x every enabled registry "
-             "operation with four custom profiles that shadow a general macro, a macro of a built-in profile, and introduce a new "
-             "one; after every step 26 probe verdicts identify the macro version each property is compiled with and TLC checks "
-             "they equal F(contents), knownNames/propertiesByProfile too, validate == validateWithProfile.valid under every "
-             "defaultProfiles assignment, unknown removal rejected.",
+             "operation with six custom profiles that shadow a general macro, a macro of a built-in profile, a TOKEN macro, introduce "
+             "a new one, or carry a name that contains the names of two others; every second behaviour takes a contents-preserving "
+             "detour (a macro-less profile added and removed) before its last action; after every step 30 probe verdicts identify the macro version each property is compiled with and TLC checks "
+             "they equal F(contents), knownNames/propertiesByProfile too, validate == validateWithProfile.valid, the `matching` answer follows the default "
+             "profiles, an explicit profiles argument (single name or list) selects exactly those profiles, unknown removal rejected.",
         design_ref="DESIGN.md section 5 C14",
         note="Trusted: TLC, the adapter's probe battery (literal-string macro bodies). Regex semantics themselves are C13's subject."),
     "C09": dict(
@@ -81,8 +83,9 @@ CLAIMED = {
         technique="TLA+ matrix (Mutators.tla: class x mutator x rejection stage x prior state x attachment x read-only) enumerated "
                   "completely by TLC; each cell rendered into one real call with before/after fingerprints; TLC trace monitor "
                   "(MutatorsContract); rejected-unchanged clauses also evaluated on all C09/C10/C15/C17 history traces",
-        text="Exhaustive over a finite matrix of 1484 cells (19 DOM classes, 55 mutators, 6 rejection stages incl. 'after part of the "
-             "new content was accepted' and 'inside a nested object'); for every call that ends in a DOM exception TLC checks that "
+        text="Exhaustive over a finite matrix of 3312 cells (21 DOM classes, 57 mutators, 7 rejection stages incl. 'after part of the "
+             "new content was accepted', 'inside a nested object' and 'a rule list whose second member is not allowed, inserted before the "
+             "end'; prior states fresh, populated and 'odd' - states only a history produces: !IMPORTANT priorities, a media list 'all, print'); for every call that ends in a DOM exception TLC checks that "
              "the serialisation of target, owner rule and sheet and the structural lists are unchanged, and that objects created "
              "read-only reject every mutator with NoModificationAllowedErr. 'Arbitrary prior state' is covered by the history "
              "checks, whose monitors contain the same clause.",
@@ -107,7 +110,8 @@ CLAIMED = {
         text="Exhaustive: all 22621 sequences of <=4 byte classes x final/non-final for the byte detector, both detectors on a charset "
              "rule cut at every length, 6 text shapes x 12 encodings x charset rule none/same/other x given/auto for the round "
              "trip, and for the four chunked classes x 11 encodings x 4 texts every cut set of <=1 (quick) / <=2 (thorough) cuts in "
-             "the first 26/30 units plus one-unit-at-a-time; TLC checks membership in the allowed answers, that a non-final answer "
+             "the first 26/30 units (a cut at 0 = an empty first chunk) plus one-unit-at-a-time, the same for decoders / encoders that are given "
+             "no encoding and detect it (BOM, @charset rule, BOM-less wide encodings whose rule names something else); TLC checks membership in the allowed answers, that a non-final answer "
              "is allowed for EVERY extension, charset-name rewriting, and concatenated chunk outputs = one-shot output.",
         design_ref="DESIGN.md section 5 C07",
         note="Trusted: TLC, transcription of the CSS 2.1 table, concrete bytes chosen per class. Texts an encoding cannot represent and "
@@ -187,8 +191,11 @@ CLAIMED = {
                   "by the adapter with a mark-recording renderer; TLC trace monitor",
         text="Bounded exhaustive: every balanced garbage sequence of <=2 (quick) / <=3 (thorough) tokens over 17 token kinds as malformed "
              "declaration at every declaration boundary (top level and inside @media), as rule with invalid selector and as unknown "
-             "at-rule in statement and block form at every statement boundary, 7 misplaced at-rules x 6 base sheets, and every prefix "
-             "of the 6 rendered base sheets (style, @media, @page with margin box, @font-face, @import/@namespace preamble).",
+             "at-rule in statement and block form at every statement boundary, an unknown at-rule (statement, block, block holding a "
+             "rule; followed directly by the next declaration, by a space or by ';') at every declaration boundary of style, @page, margin "
+             "box and @font-face blocks also nested in @media, @import / @namespace statements that carry a block at every statement "
+             "boundary, 10 misplaced at-rules x 9 base sheets, and every prefix "
+             "of the 9 rendered base sheets (style, @media, @page with margin box, @font-face, @import/@namespace preamble).",
         design_ref="DESIGN.md section 5 C04",
         note="Trusted: TLC, the renderer's offset marks (which rules/declarations are complete before a cut), the projection. The inserted "
              "construct itself may or may not appear in the DOM."),
@@ -197,11 +204,14 @@ CLAIMED = {
                   "generating token sequences per context, nesting sweeps and entry-point x option x fetcher x import-graph rows; every "
                   "row executed through the non-raising entry points under a CPU budget; TLC trace monitor (SoupContract)",
         text="Bounded exhaustive over the (context x token x next token) product: every token in every context, token pairs in 10 "
-             "(quick) / all 28 contexts, sheet-level triples (thorough), 15 openers nested to depths 1..100 in 4 contexts closed and "
-             "unclosed, 648 configuration rows (text / bytes / style attribute x fetcher content / None / (None,None) / () / bytes "
+             "(quick) / all 28 contexts, sheet-level triples (thorough), every glued sequence of 3..5 of the tokens of namespaced simple selectors, 21 openers nested "
+             "to depths 1..100 in 4 contexts closed and unclosed, 16 token openers x 12 character classes x run lengths 40/300 (thorough "
+             "up to 3000) x 4 endings (long runs whose match fails late), one declaration per property name of /repo's profiles x 5 value "
+             "shapes built to make a backtracking matcher work hard, about 700 configuration rows (text / bytes / style attribute x fetcher content / None / (None,None) / () / bytes "
              "with BOM or @charset x chain, diamond, self-loop, 2-cycle, missing imports), parser options rotating, plus the "
              "repository's sheets with seeded cuts and mutations. TLC checks: returns the documented class, never raises, CPU "
-             "time <= 1 s + 50 us x n^2, result serialises, serialisation parses and serialises again.",
+             "time <= 1 s + 50 us x n^2, result serialises, serialisation parses and serialises again. A call that does not return at "
+             "all is observed by the worker pool's watchdog (the worker is killed, the row is judged as TIMEOUT).",
         design_ref="DESIGN.md section 5 C01",
         note="Trusted: TLC, the adapter's spelling table, process CPU time measurement (TLC has no notion of time: the bounded-time clause "
              "is decided on the replayed behaviours). One known finding ('@charset\"abc')."),
